@@ -241,6 +241,12 @@ fn run_art(c: &ArtCase) -> Outcome {
                             set_len(&mut b, he - hs - 1);
                             variants.push((format!("octet at offset {} of the hashed area removed (length field corrected)", p - hs), b));
                         }
+                        // the packet body with octets appended after the signature value
+                        for ext in [&[0u8][..], &[0xFF], &[0, 0], &[1, 2, 3, 4, 5, 6, 7, 8]] {
+                            let mut b = a.sig_body.clone();
+                            b.extend_from_slice(ext);
+                            variants.push((format!("{} octets appended after the signature value", ext.len()), b));
+                        }
                         for (what, b) in variants {
                             evals += 1;
                             let Ok(sig) = sigs::sig_from_body(&b) else {
@@ -542,7 +548,7 @@ fn run_cert(c: &CertCase) -> Outcome {
         let shape = Shape {
             v6: c.key.is_v6(),
             primary: if matches!(c.key, KeyKind::EcdsaP256V4 | KeyKind::EcdsaP256V6) { Alg::EcdsaP256 } else { Alg::Ed25519 },
-            subs: vec![Sub { alg: Alg::Ed25519, sign: true, encrypt: false, lock: 0 }, Sub { alg: Alg::X25519, sign: false, encrypt: true, lock: 0 }],
+            subs: vec![Sub { alg: Alg::Ed25519, sign: true, encrypt: false, lock: 0, caps: 0 }, Sub { alg: Alg::X25519, sign: false, encrypt: true, lock: 0, caps: 0 }],
             lock: 0,
             uids: 2,
             prefs: false,
@@ -649,10 +655,19 @@ pub fn check(ctx: &Ctx) {
             }
         }
     }
+    if quick {
+        // the signature-packet deviations also for the signature encodings of the other algorithms
+        for (key, hash) in [(KeyKind::Ed448V6, 1u8), (KeyKind::Ed25519LegacyV4, 2), (KeyKind::EcdsaP256V6, 1), (KeyKind::Rsa2048V4, 0)] {
+            for kind in [SigKind::DocBinary, SigKind::CertUserId(0x13), SigKind::SubkeyBinding] {
+                let object = if kind == SigKind::DocBinary { vec![0x41] } else { b"Alice <a@example.org>".to_vec() };
+                ac.push(ArtCase { spec: Spec { kind, key, hash, object, notation_len: 0, critical_time: false }, target: Target::SignaturePacket });
+            }
+        }
+    }
     ctx.run_space(
         "signature_artefacts",
         true,
-        "14 signature kinds x signer keys (quick 3, thorough 7; v4 and v6) x small objects: EVERY single-bit flip of the signature packet body (and one octet inserted into / removed from the hashed subpacket area at every position, area length corrected), of the verifying key packet body, and of the signed content (plus every truncation and short extensions / prefixes), and substitution of 18 other keys as verifier and as signed key; each through the applicable verification API. A verdict is demanded only when the independent decoder finds the protected abstract value changed (content modulo text canonicalisation; type, algorithms, hashed area, salt, left-16, signature value with MPI normalisation; key version/time/algorithm/material); the unmodified artefact must verify. evaluations = verification attempts.",
+        "14 signature kinds x signer keys (quick 3 + the signature-packet deviations for Ed448, EdDSA-legacy, ECDSA v6 and RSA, thorough 7; v4 and v6) x small objects: EVERY single-bit flip of the signature packet body (and one octet inserted into / removed from the hashed subpacket area at every position, area length corrected; octets appended after the signature value), of the verifying key packet body, and of the signed content (plus every truncation and short extensions / prefixes), and substitution of 18 other keys as verifier and as signed key; each through the applicable verification API. A verdict is demanded only when the independent decoder finds the protected abstract value changed (content modulo text canonicalisation; type, algorithms, hashed area, salt, left-16, signature value with MPI normalisation; key version/time/algorithm/material); the unmodified artefact must verify. evaluations = verification attempts.",
         ac.into_par_iter(),
         run_art,
     );
